@@ -167,13 +167,19 @@ func init() {
 		return mergeValuesOrFork(p, termOf(a[0]), a[1], a[2])
 	}
 	I[vzPkg+".MapOrderNondetFor"] = func(p *Path, a []Value, _ *ssa.CallCommon) Value {
-		// the argument is an interface holding a map: only ranges over that map fork over orders
+		// the argument is an interface holding a map: a rotation of its slot order is
+		// drawn now (one decision) and used by every range over it until the next call
 		if iv, ok := a[0].(IfaceVal); ok {
 			if mv, ok := iv.v.(MapVal); ok && mv.m != nil {
 				if p.nondetMaps == nil {
-					p.nondetMaps = map[*MapObj]bool{}
+					p.nondetMaps = map[*MapObj]int{}
 				}
-				p.nondetMaps[mv.m] = true
+				n := len(mv.m.liveEntries())
+				k := 0
+				if n >= 2 && len(mv.m.slots) <= 8 {
+					k = p.choose(n)
+				}
+				p.nondetMaps[mv.m] = k + 1
 			}
 		}
 		return nil
